@@ -216,20 +216,63 @@ theorem subRegion_strict (region : List Rat) (hw : StrictWF region) (jb : Nat) (
 theorem truncInt_of_nonneg (x : Rat) (h : 0 ≤ x) : truncInt x = x.floor := by
   unfold truncInt; rw [if_pos h]
 
-/-- `npre + 2·MNPT ≤ npts` whenever the node bisects (`npts ≥ MNBS = 60`) -/
-theorem npre_room (npts : Int) (h : 60 ≤ npts) : 15 ≤ max (npts / 10) 15 ∧ max (npts / 10) 15 + 30 ≤ npts ∧ max (npts / 10) 15 < npts := by
+/-! ## the constants of Miser (`LpModel/C14/Constants.lean`, regenerated from src/Integration.cpp — DESIGN.md §4.5).
+    The lemmas of this block are the ONLY places where the values are unfolded: a changed `MNPT`, `MNBS`, `PFAC`
+    (or `2` of `2·MNPT`, `dith`, `TINY`, `BIG`) that invalidates one of them breaks its proof. -/
+
+/-- `MNPT ≥ 1`: a half never gets an empty budget (the C++ divides by `npts` at a leaf) -/
+theorem mnpt_pos : 1 ≤ K.mnpt := by decide
+
+/-- `MNBS ≥ 1`: a call with `npts ≤ 0` is never a bisecting node -/
+theorem mnbs_pos : 1 ≤ K.mnbs := by decide
+
+/-- `int(npts·PFAC) = npts / 10` for a non-negative budget (`PFAC = 0.1` exactly in the model) -/
+theorem trunc_pfac (npts : Int) (h : 0 ≤ npts) : truncInt ((npts : Rat) * K.pfac) = npts / 10 := by
+  have h0 : (0 : Rat) ≤ (npts : Rat) * K.pfac := by
+    have : (0 : Rat) ≤ npts := by exact_mod_cast h
+    simp only [K.pfac]; positivity
+  rw [truncInt_of_nonneg _ h0]
+  have e : (npts : Rat) * K.pfac = (npts : Rat) / 10 := by simp only [K.pfac]; ring
+  rw [e]
+  have hF := Rat.floor_le ((npts : Rat) / 10)
+  have hF' : ((npts : Rat) / 10).floor * 10 ≤ npts := by
+    have : ((((npts : Rat) / 10).floor : Int) : Rat) * 10 ≤ npts := by linarith
+    exact_mod_cast this
+  have hq : npts / 10 ≤ ((npts : Rat) / 10).floor := by
+    rw [Rat.le_floor_iff, le_div_iff₀ (by norm_num)]
+    exact_mod_cast (by omega : npts / 10 * 10 ≤ npts)
   omega
 
+/-- `npre = max(int(npts·PFAC), MNPT)` leaves room for the two halves: `MNPT ≤ npre`, `npre + 2·MNPT ≤ npts`, `npre < npts`
+    whenever the node bisects (`npts ≥ MNBS`); needs `MNBS·(1 − PFAC) ≥ 2·MNPT` and `MNBS ≥ 3·MNPT` (60, 0.1, 15: 54 ≥ 30, 60 ≥ 45) -/
+theorem npre_room (npts : Int) (h : K.mnbs ≤ npts) :
+    K.mnpt ≤ max (truncInt ((npts : Rat) * K.pfac)) K.mnpt ∧
+    max (truncInt ((npts : Rat) * K.pfac)) K.mnpt + K.mnptTwice * K.mnpt ≤ npts ∧
+    max (truncInt ((npts : Rat) * K.pfac)) K.mnpt < npts := by
+  have h' := h
+  simp only [K.mnbs] at h'
+  rw [trunc_pfac npts (by omega)]
+  simp only [K.mnpt, K.mnptTwice]
+  omega
+
+/-- the model's `rmid` (mid-point, `s = 0`) is the code's only because `Integrate_MC_Miser` passes `dith = 0` -/
+theorem miser_dith_zero : K.dith = 0 := rfl
+
+/-- the floors `max(TINY, ·)` and the start values `±BIG`, which the model omits, act only outside `[1e-30, 1e30]` -/
+theorem miser_floors_out_of_range : 0 < K.tinyMiser ∧ K.tinyMiser ≤ 1 / 10 ^ 30 ∧ (10 : Rat) ^ 30 ≤ K.bigMiser := by
+  simp only [K.tinyMiser, K.bigMiser]; norm_num
+
 /-- as coded `nptl = int(MNPT + (npts − npre − 2·MNPT)·t)` with `t = fracl·σl / (fracl·σl + (1−fracl)·σr) ∈ [0,1]`:
-    both halves get at least `MNPT = 15` points -/
-theorem alloc_bounds (m : Int) (hm : 0 ≤ m) (fracl sl sr : Rat) (hf0 : 0 < fracl) (hf1 : fracl < 1) (hsl : 0 < sl) (hsr : 0 < sr) :
-    15 ≤ truncInt (15 + (m : Rat) * fracl * sl / (fracl * sl + (1 - fracl) * sr)) ∧
-    truncInt (15 + (m : Rat) * fracl * sl / (fracl * sl + (1 - fracl) * sr)) ≤ 15 + m := by
+    both halves get at least `MNPT` points (`c`) -/
+theorem alloc_bounds (c m : Int) (hc : 0 ≤ c) (hm : 0 ≤ m) (fracl sl sr : Rat) (hf0 : 0 < fracl) (hf1 : fracl < 1) (hsl : 0 < sl) (hsr : 0 < sr) :
+    c ≤ truncInt ((c : Rat) + (m : Rat) * fracl * sl / (fracl * sl + (1 - fracl) * sr)) ∧
+    truncInt ((c : Rat) + (m : Rat) * fracl * sl / (fracl * sl + (1 - fracl) * sr)) ≤ c + m := by
   have hD : 0 < fracl * sl + (1 - fracl) * sr := by
     have := mul_pos hf0 hsl
     have := mul_pos (by linarith : (0 : Rat) < 1 - fracl) hsr
     linarith
   have hm' : (0 : Rat) ≤ m := by exact_mod_cast hm
+  have hc' : (0 : Rat) ≤ c := by exact_mod_cast hc
   have ht0 : 0 ≤ (m : Rat) * fracl * sl / (fracl * sl + (1 - fracl) * sr) :=
     div_nonneg (mul_nonneg (mul_nonneg hm' (le_of_lt hf0)) (le_of_lt hsl)) (le_of_lt hD)
   have ht1 : (m : Rat) * fracl * sl / (fracl * sl + (1 - fracl) * sr) ≤ m := by
@@ -238,9 +281,9 @@ theorem alloc_bounds (m : Int) (hm : 0 ≤ m) (fracl sl sr : Rat) (hf0 : 0 < fra
     nlinarith
   rw [truncInt_of_nonneg _ (by linarith)]
   constructor
-  · rw [Rat.le_floor_iff]; push_cast; linarith
-  · have h1 := Rat.floor_le (15 + (m : Rat) * fracl * sl / (fracl * sl + (1 - fracl) * sr))
-    have h2 : (((15 + (m : Rat) * fracl * sl / (fracl * sl + (1 - fracl) * sr)).floor : Int) : Rat) ≤ ((15 + m : Int) : Rat) := by
+  · rw [Rat.le_floor_iff]; linarith
+  · have h1 := Rat.floor_le ((c : Rat) + (m : Rat) * fracl * sl / (fracl * sl + (1 - fracl) * sr))
+    have h2 : ((((c : Rat) + (m : Rat) * fracl * sl / (fracl * sl + (1 - fracl) * sr)).floor : Int) : Rat) ≤ ((c + m : Int) : Rat) := by
       push_cast; linarith
     exact_mod_cast h2
 
@@ -256,7 +299,7 @@ section Node
 variable (u01 : U01 G) (f : List Rat → Rat) (pw23 : Rat → Rat) (region : List Rat) (npts : Int) (iran : Nat) (g : G)
 
 /-- `npre = max(int(npts·PFAC), MNPT)` -/
-def mNpre : Int := max (npts / 10) 15
+def mNpre : Int := max (truncInt ((npts : Rat) * K.pfac)) K.mnpt
 /-- the pre-sampling -/
 def mPre : List (List Rat × Rat) × G := sampleN u01 f region (mNpre npts).toNat g
 def mSplit : Split := chooseSplit pw23 (mPre u01 f region npts g).1 region (region.length / 2) (lcgN (region.length / 2) iran)
@@ -266,7 +309,7 @@ def mFracl : Rat :=
   rabs ((mMid u01 f pw23 region npts iran g - at_ region (mJb u01 f pw23 region npts iran g)) /
         (at_ region (region.length / 2 + mJb u01 f pw23 region npts iran g) - at_ region (mJb u01 f pw23 region npts iran g)))
 def mNptl : Int :=
-  truncInt (15 + ((npts - mNpre npts - 30 : Int) : Rat) * mFracl u01 f pw23 region npts iran g * (mSplit u01 f pw23 region npts iran g).siglb /
+  truncInt ((K.mnpt : Rat) + ((npts - mNpre npts - K.mnptTwice * K.mnpt : Int) : Rat) * mFracl u01 f pw23 region npts iran g * (mSplit u01 f pw23 region npts iran g).siglb /
     (mFracl u01 f pw23 region npts iran g * (mSplit u01 f pw23 region npts iran g).siglb +
      (1 - mFracl u01 f pw23 region npts iran g) * (mSplit u01 f pw23 region npts iran g).sigrb))
 def mNptr : Int := npts - mNpre npts - mNptl u01 f pw23 region npts iran g
@@ -274,13 +317,14 @@ def mLeft : List Rat := subRegion region (region.length / 2) (mJb u01 f pw23 reg
 def mRight : List Rat := subRegion region (region.length / 2) (mJb u01 f pw23 region npts iran g) (mMid u01 f pw23 region npts iran g) false
 
 /-- a successful bisecting node: both recursive calls succeeded and the node combines them as coded -/
-theorem miser_node_some (fuel : Nat) (h2 : 60 ≤ npts) (o : MiserOut G)
+theorem miser_node_some (fuel : Nat) (h2 : K.mnbs ≤ npts) (o : MiserOut G)
     (h : miser u01 f pw23 (fuel + 1) region npts iran g = some o) :
     ∃ l r, miser u01 f pw23 fuel (mLeft u01 f pw23 region npts iran g) (mNptl u01 f pw23 region npts iran g)
               (lcgN (region.length / 2) iran) (mPre u01 f region npts g).2 = some l ∧
            miser u01 f pw23 fuel (mRight u01 f pw23 region npts iran g) (mNptr u01 f pw23 region npts iran g) l.iran l.g = some r ∧
            o.ave = mFracl u01 f pw23 region npts iran g * l.ave + (1 - mFracl u01 f pw23 region npts iran g) * r.ave ∧
            o.pts = (mPre u01 f region npts g).1.map (·.1) ++ l.pts ++ r.pts := by
+  have hK := mnbs_pos
   simp only [miser] at h
   rw [if_neg (by omega), if_neg (by omega)] at h
   split at h
@@ -293,13 +337,14 @@ theorem miser_node_some (fuel : Nat) (h2 : 60 ≤ npts) (o : MiserOut G)
       exact ⟨l, r, hl, hr, by rw [← h]; rfl, by rw [← h]; rfl⟩
 
 /-- conversely: a bisecting node fails only if one of its two recursive calls fails -/
-theorem miser_node_none (fuel : Nat) (h2 : 60 ≤ npts)
+theorem miser_node_none (fuel : Nat) (h2 : K.mnbs ≤ npts)
     (h : miser u01 f pw23 (fuel + 1) region npts iran g = none) :
     miser u01 f pw23 fuel (mLeft u01 f pw23 region npts iran g) (mNptl u01 f pw23 region npts iran g)
         (lcgN (region.length / 2) iran) (mPre u01 f region npts g).2 = none ∨
     ∃ l, miser u01 f pw23 fuel (mLeft u01 f pw23 region npts iran g) (mNptl u01 f pw23 region npts iran g)
         (lcgN (region.length / 2) iran) (mPre u01 f region npts g).2 = some l ∧
       miser u01 f pw23 fuel (mRight u01 f pw23 region npts iran g) (mNptr u01 f pw23 region npts iran g) l.iran l.g = none := by
+  have hK := mnbs_pos
   simp only [miser] at h
   rw [if_neg (by omega), if_neg (by omega)] at h
   split at h
@@ -310,7 +355,7 @@ theorem miser_node_none (fuel : Nat) (h2 : 60 ≤ npts)
     · exact absurd h (by simp)
 
 /-- a leaf: `npts` plain samples, `ave = summ / npts` -/
-theorem miser_leaf (fuel : Nat) (h1 : 0 < npts) (h2 : npts < 60) :
+theorem miser_leaf (fuel : Nat) (h1 : 0 < npts) (h2 : npts < K.mnbs) :
     miser u01 f pw23 (fuel + 1) region npts iran g =
       some ⟨sumVals (sampleN u01 f region npts.toNat g).1 / npts, (sampleN u01 f region npts.toNat g).1.map (·.1), npts, iran,
             (sampleN u01 f region npts.toNat g).2, false⟩ := by
@@ -353,18 +398,21 @@ theorem node_sig_const (c : Rat) :
   unfold mSplit mPre
   exact chooseSplit_const pw23 c _ (fun p hp => sampleN_vals u01 (fun _ => c) region _ g p hp) region _ _
 
-/-- both halves of a bisecting node get at least `MNPT = 15` points and fewer than the node itself -/
-theorem node_alloc (hs : StrictWF region) (hd : 0 < region.length / 2) (h60 : 60 ≤ npts)
+/-- both halves of a bisecting node get at least `MNPT` points — hence at least one (`mnpt_pos`) — and fewer than the node itself -/
+theorem node_alloc (hs : StrictWF region) (hd : 0 < region.length / 2) (h60 : K.mnbs ≤ npts)
     (hsig : 0 < (mSplit u01 f pw23 region npts iran g).siglb ∧ 0 < (mSplit u01 f pw23 region npts iran g).sigrb) :
-    15 ≤ mNptl u01 f pw23 region npts iran g ∧ mNptl u01 f pw23 region npts iran g < npts ∧
-    15 ≤ mNptr u01 f pw23 region npts iran g ∧ mNptr u01 f pw23 region npts iran g < npts := by
+    K.mnpt ≤ mNptl u01 f pw23 region npts iran g ∧ mNptl u01 f pw23 region npts iran g < npts ∧
+    K.mnpt ≤ mNptr u01 f pw23 region npts iran g ∧ mNptr u01 f pw23 region npts iran g < npts := by
   have hf := node_fracl u01 f pw23 region npts iran g hs hd
   have hroom := npre_room npts h60
-  have hb := alloc_bounds (npts - mNpre npts - 30) (by unfold mNpre; omega) (mFracl u01 f pw23 region npts iran g) _ _
+  have hpos := mnpt_pos
+  have hb := alloc_bounds K.mnpt (npts - mNpre npts - K.mnptTwice * K.mnpt) (by omega) (by unfold mNpre; omega) (mFracl u01 f pw23 region npts iran g) _ _
     (by rw [hf]; norm_num) (by rw [hf]; norm_num) hsig.1 hsig.2
   unfold mNptr
-  change 15 ≤ mNptl u01 f pw23 region npts iran g ∧ mNptl u01 f pw23 region npts iran g ≤ 15 + (npts - mNpre npts - 30) at hb
+  change K.mnpt ≤ mNptl u01 f pw23 region npts iran g ∧
+    mNptl u01 f pw23 region npts iran g ≤ K.mnpt + (npts - mNpre npts - K.mnptTwice * K.mnpt) at hb
   unfold mNpre at hb ⊢
+  simp only [K.mnptTwice] at hb hroom
   omega
 
 end Node
